@@ -4,6 +4,6 @@ CONSTANTS
   Assets <- AssetsGen
   AssetOf <- AssetOfGen
   Adm <- AdmGen
-  MaxLen = 3
+  MaxLen = 4
   Gen = TRUE
 INVARIANTS Emit
